@@ -103,19 +103,27 @@ Fixpoint lookup (e : env) (p : path) : option val :=
   end.
 Definition res := (env * bool)%type.      (* OperationResult: bindings, is_false *)
 
-Definition oval_eqb (a b : option val) : bool :=
-  match a, b with Some v, Some w => val_eqb v w | None, None => true | _, _ => false end.
+(* Exists._evaluate__ (since ded4892 / 38657f3): false results skipped; one result per binding of the OTHER variables.
+   For the conditions match.py builds, exists(attr, c), these are: the root variable (Attribute nodes and Literals are
+   not variables) and the Flatten nodes in the chain of the quantified expression attr itself (not the Flatten that
+   the condition puts on top of attr). *)
+Definition qvar (pc : path) : path := match pc with PFlat q => q | _ => pc end.   (* attr, from the compared node *)
+Fixpoint flats (p : path) : list path :=
+  match p with PRoot => [] | PAttr q _ => flats q | PFlat q => p :: flats q end.
+Definition exists_keys (pc : path) : list path := PRoot :: flats (qvar pc).
+Definition key := list (option val).
+Definition key_eq_dec (a b : key) : {a = b} + {a <> b}.
+Proof. apply list_eq_dec. decide equality. apply val_eq_dec. Defined.
+Definition keyof (ks : list path) (e : env) : key := map (lookup e) ks.
 
-(* Exists._evaluate__ (since ded4892): false results skipped; one result per binding of the OTHER variables -- for the
-   conditions match.py builds these are: the root variable (Attribute / Flatten nodes and Literals are not variables) *)
-Fixpoint exists_scan (seen : list (option val)) (rs : list res) : list res :=
+Fixpoint exists_scan (ks : list path) (seen : list key) (rs : list res) : list res :=
   match rs with
   | [] => []
   | (e, f) :: rs' =>
-      if f then exists_scan seen rs'
-      else let k := lookup e PRoot in
-           if existsb (oval_eqb k) seen then exists_scan seen rs'
-           else (e, false) :: exists_scan (k :: seen) rs'
+      if f then exists_scan ks seen rs'
+      else let k := keyof ks e in
+           if in_dec key_eq_dec k seen then exists_scan ks seen rs'
+           else (e, false) :: exists_scan ks (k :: seen) rs'
   end.
 
 Section Eval.
@@ -149,7 +157,7 @@ Section Eval.
     match c with
     | TCmp ex k p v =>
         let rs := map (fun r : env * val => (fst r, negb (cmp k (snd r) v))) (eval_path p e) in
-        if ex then exists_scan [] rs else rs
+        if ex then exists_scan (exists_keys p) [] rs else rs
     | THas p T => map (fun r : env * val => (fst r, negb (isinst (snd r) T))) (eval_path p e)
     end.
 
